@@ -1,7 +1,10 @@
-(* ops answered by the hand-written Coq models (Hand/*.v) *)
+(* ops answered by the hand-written Coq models (coq/Hand/*.v); each hand_*.ml raises Util.Unsupported
+   for ops it does not know *)
 module ZA = Z
 type ostring = string
-open Jv
 open Util
 
-let eval (toks : ostring list) : ostring = ignore toks; raise Unsupported
+let eval (toks : ostring list) : ostring =
+  try Hand_text.eval toks with Unsupported ->
+  try Hand_iter.eval toks with Unsupported ->
+  Hand_misc.eval toks
